@@ -304,9 +304,10 @@ class RpcServer(PduPeer):
         body = stub + bytes([self.knobs.get("pad_fill", 0xA5)]) * pad
         sig_len = st.acceptor.sig_size
         ah = {"padded": len(body), "unpadded": len(stub), "zero": 0}[self.knobs.get("alloc_hint", "padded")]
+        # (auth_reserved: "must be zero" for senders, to be ignored by receivers; a knob lets a server send something else)
         pdu = bytearray(self.codec.build_response(body, ctx_id=ctx_id, call_id=call_id, alloc_hint=ah,
                                             auth={"type": st.auth_type, "level": st.auth_level, "pad": pad, "ctx": st.auth_ctx,
-                                                  "value": b"\x00" * sig_len}))
+                                                  "value": b"\x00" * sig_len, "reserved": int(self.knobs.get("auth_reserved", 0))}))
         off = 24 + len(body)
         sealed, sig = st.acceptor.wrap(bytes(pdu[:24]), body, bytes(pdu[off : off + 8]), st.header_sign)
         if len(sig) != sig_len:
